@@ -92,6 +92,59 @@ def correspondences(tier, rng):
         if len(set(low)) != len(low): return "two names map to the same file ignoring case: %r" % (r.v,)
         return None
     out.append(Corr("name_sequence", cases, impl_seq, oracle=oracle_seq))
+    # axis maps: AxisDescriptor.map_forward / map_backward on exact rationals, the map as a user may write it (any entry order,
+    # increasing / decreasing / flat / not monotone at all, exact duplicates, one input with two outputs)
+    from fontTools.designspaceLib import AxisDescriptor, DesignSpaceDocumentError
+    from fractions import Fraction as Fr
+    from lib import ser as S_
+    def gen_map():
+        k = rng.randint(0, 6); fam = rng.below(6)
+        xs = sorted(rng.sample(range(-20, 21), k))
+        if fam == 0: ys = sorted(rng.sample(range(-60, 61), k))
+        elif fam == 1: ys = sorted(rng.sample(range(-60, 61), k), reverse=True)
+        elif fam == 2: ys = sorted(rng.choice(range(-6, 7)) for _ in range(k))            # flat segments
+        else: ys = [rng.randint(-60, 60) for _ in range(k)]
+        m = [(Fr(x, 4), Fr(y, 4)) for x, y in zip(xs, ys)]
+        if m and rng.chance(20): m.append(rng.choice(m))                                  # exact duplicate: collapses
+        if m and rng.chance(8): m.append((rng.choice(m)[0], Fr(rng.randint(-60, 60), 4) + Fr(1, 8)))   # conflicting outputs: refused
+        rng.shuffle(m)
+        return m
+    def probes(m):
+        c = [Fr(rng.randint(-100, 100), 16), Fr(rng.randint(-300, 300), 16)]
+        for a, b in m: c += [a, b]
+        if len(m) >= 2:
+            (a, va), (b, vb) = rng.sample(m, 2); c += [(a + b) / 2, (va + vb) / 2, (2 * a + b) / 3]
+        return c
+    cases_f = []; cases_b = []
+    for _ in range(N(tier, 500, 6000)):
+        m = gen_map()
+        for v in rng.sample(probes(m), 2): cases_f.append((m, v))
+        for v in rng.sample(probes(m), 2): cases_b.append((m, v))
+    def axis(m):
+        a = AxisDescriptor(); a.name = "T"; a.tag = "TEST"; a.minimum, a.default, a.maximum = 0, 0, 1000; a.map = list(m); return a
+    def call(fn):
+        try: return Ok(Fr(fn()))
+        except DesignSpaceDocumentError: return Err(S_.VALUE, "DesignSpaceDocumentError")
+        except Exception as e: return Err(S_.exc_code(e), type(e).__name__)
+    def oracle_axis(x):
+        """the PROPERTY on the implementation: on a strictly monotone map the two directions undo each other (decreasing: inside the node range)"""
+        m, v = x
+        ms = sorted(set(m))
+        if len(ms) < 2 or len(set(a for a, _ in ms)) != len(ms): return None
+        inc = all(ms[i][1] < ms[i + 1][1] for i in range(len(ms) - 1)); dec = all(ms[i][1] > ms[i + 1][1] for i in range(len(ms) - 1))
+        if not (inc or dec): return None
+        a = axis(m)
+        msg = None
+        if inc or ms[0][0] <= v <= ms[-1][0]:
+            r = a.map_backward(a.map_forward(v))
+            if r != v: msg = "map_backward(map_forward(%s)) = %s on %r" % (v, r, m)
+        lo, hi = min(b for _, b in ms), max(b for _, b in ms)
+        if msg is None and (inc or lo <= v <= hi):
+            r = a.map_forward(a.map_backward(v))
+            if r != v: msg = "map_forward(map_backward(%s)) = %s on %r" % (v, r, m)
+        return msg
+    out.append(Corr("axis_map_forward", cases_f, lambda x: call(lambda: axis(x[0]).map_forward(x[1])), oracle=oracle_axis))
+    out.append(Corr("axis_map_backward", cases_b, lambda x: call(lambda: axis(x[0]).map_backward(x[1])), oracle=oracle_axis))
     return out
 
 def _f1_pattern(u, which):
@@ -296,6 +349,11 @@ def sweeps(tier, rng):
                 w.writeGroups(groups); w.writeKerning(kern); w.writeLib({"k": [1, 2], "public.glyphOrder": ["A", "B"]})
                 names = [nm for nm in (gen_name(rng) or "x" for _ in range(rng.randint(2, 8))) if all(ord(c) >= 32 and ord(c) != 127 for c in nm)] or ["x"]
                 names = list(dict.fromkeys(names))
+                # names whose file name exceeds 255 characters are the listed finding F1 (decided in the correspondence part): the OS
+                # refuses the file and the half-done writeGlyph leaves its contents entry behind — not a second finding
+                from fontTools.ufoLib.filenames import userNameToFileName as _u2f
+                names = [nm for nm in names if not (_f1_pattern(nm, 0) and len(_u2f(nm, [], "", ".glif")) > 255)]
+                if not names: names = ["x"]
                 gs = w.getGlyphSet()
                 class G: pass
                 for nm in names:
